@@ -259,6 +259,10 @@ def finish(mod, tier, seed, merged, broken, wall, planned):
                       % (len(merged['errors']), str(merged['errors'][0])[:1200]))
     if merged['evaluations'] == 0:
         inconc.append('no case was executed')
+    ninc = sum(merged['inconclusive'].values())
+    if ninc and ninc * 4 > max(1, merged['evaluations']):
+        inconc.append('%d of %d cases were inconclusive: %s' % (ninc, merged['evaluations'],
+                                                               dict(list(merged['inconclusive'].items())[:3])))
     nd = len(merged['sigs'])
     cov = {
         'evaluations': merged['evaluations'],
